@@ -315,6 +315,21 @@ class Machine:
             type(x).get_child_fields()
             repr(x)
             str(x.origin)
+        elif kind == "pycopy":
+            # the copy / pickle protocols: the copies are new objects of their own, the originals stay what
+            # and where they are (the copies are kept alive until the step has been checked)
+            import copy
+            import pickle
+
+            x = self.node(o[1], o[2])
+            how = o[3] % 3
+            try:
+                cp = copy.copy(x) if how == 0 else (copy.deepcopy(x) if how == 1 else pickle.loads(pickle.dumps(x)))
+            except (pickle.PicklingError, AttributeError, TypeError):
+                cp = None  # (classes made inside functions cannot be pickled: Python's limitation)
+            self.copies = getattr(self, "copies", [])
+            self.copies.append(cp)
+            self.lab.tag("copy-protocol" if cp is not None else "copy-protocol-not-picklable")
         elif kind == "rich":
             from rich.console import Console
 
@@ -395,6 +410,7 @@ def st_program(ctx: Ctx):
         st.tuples(st.just("origin_merge"), s, s, s, s),
         st.tuples(st.just("props"), s, s, small),
         st.tuples(st.just("rich"), s, s),
+        st.tuples(st.just("pycopy"), s, s, small),
         st.tuples(st.just("setattr"), s, s),
         st.tuples(st.just("digest"), small),
     ]
